@@ -431,6 +431,21 @@ class RelaySpec(LayerSpec):
             return self.value(expr.body if t else expr.orelse, st, depth)
         if isinstance(expr, ast.NamedExpr):
             return self.value(expr.value, st, depth)
+        if isinstance(expr, ast.BoolOp):
+            # `a or b` / `a and b` yield one of their operands (`peer = peer or self.context.client`)
+            v = UNKNOWN
+            for i, e in enumerate(expr.values):
+                v = self.value(e, st, depth)
+                if i == len(expr.values) - 1:
+                    return v
+                t = self.truth_of_value(v)
+                if t is None:
+                    t = self.truth(e, st, depth)
+                if t is None:
+                    return UNKNOWN
+                if t is isinstance(expr.op, ast.Or):
+                    return v
+            return v
         if isinstance(expr, ast.Yield):
             cmd = self.value(expr.value, st, depth) if expr.value is not None else UNKNOWN
             if isinstance(cmd, tuple) and cmd and cmd[0] == "new" and cmd[1] == "OpenConnection":
@@ -442,6 +457,18 @@ class RelaySpec(LayerSpec):
             return UNKNOWN
         if isinstance(expr, (ast.Tuple, ast.List)) and not any(isinstance(e, ast.Starred) for e in expr.elts):
             return ("seq", tuple(self.value(e, st, depth) for e in expr.elts))
+        if isinstance(expr, (ast.Tuple, ast.List)):
+            # `[first, *others]`: a starred element that is a sequence of known values is spliced in
+            out = []
+            for e in expr.elts:
+                v = self.value(e.value if isinstance(e, ast.Starred) else e, st, depth)
+                if isinstance(e, ast.Starred):
+                    if not (isinstance(v, tuple) and len(v) == 2 and v[0] == "seq"):
+                        return UNKNOWN
+                    out.extend(v[1])
+                else:
+                    out.append(v)
+            return ("seq", tuple(out))
         if isinstance(expr, ast.Call):
             if isinstance(expr.func, ast.Name) and expr.func.id == "bool" and len(expr.args) == 1 and not expr.keywords:
                 t = self.truth(expr.args[0], st, depth)
@@ -471,6 +498,24 @@ class RelaySpec(LayerSpec):
                 return self.pure_call(fn, expr, st, depth)
             return UNKNOWN
         return LayerSpec.value(self, expr, st, depth)
+
+    def bind(self, target, value_expr, st, depth, value=None):
+        """unpacking of a sequence of known abstract values (`client, server = self.context.client, self.context.server`, `a, b = self._peers()`,
+        `for conn, other in ((c, s), (s, c)):`, `first, *rest = (..)`): element-wise, the right-hand side evaluated before any target is bound"""
+        if isinstance(target, (ast.Tuple, ast.List)):
+            v = value if value is not None else self.value(value_expr, st, depth)
+            if isinstance(v, tuple) and len(v) == 2 and v[0] == "seq":
+                vals = list(v[1])
+                star = [i for i, e in enumerate(target.elts) if isinstance(e, ast.Starred)]
+                if len(star) == 1 and len(vals) >= len(target.elts) - 1:
+                    i = star[0]
+                    after = len(target.elts) - i - 1
+                    vals = vals[:i] + [("seq", tuple(vals[i:len(vals) - after]))] + vals[len(vals) - after:]
+                if len(star) <= 1 and len(vals) == len(target.elts):
+                    for t, x in zip(target.elts, vals):
+                        st = self.bind(t.value if isinstance(t, ast.Starred) else t, None, st, depth, value=x)
+                    return st
+        return LayerSpec.bind(self, target, value_expr, st, depth, value=value)
 
     def quantifier(self, is_all: bool, arg, st, depth):
         """three-valued any(...) / all(...) over a sequence of known values: a literal / helper result, or a comprehension with one
